@@ -52,7 +52,19 @@ fn main() {
 
 fn worker(id: &str, tier: &str, shard: (usize, usize), out: &str) {
     let mut ctx = Ctx::new(id, tier, shard, seed());
-    checks::run(id, &mut ctx);
+    // a panic inside mls-rs that no check caught closer to its origin is still a violation of
+    // the property being checked (all of them demand "an error, never a panic"); a panic in
+    // harness code is a machinery error
+    let r = std::panic::catch_unwind(std::panic::AssertUnwindSafe(|| checks::run(id, &mut ctx)));
+    if r.is_err() {
+        let (loc, msg, lib) = engine::take_panic();
+        if lib {
+            ctx.violation(format!("panic|{loc}"), format!("library panicked: {msg}"));
+            ctx.note("a shard stopped early because of a library panic");
+        } else {
+            engine::machinery(&format!("harness panic at {loc}: {msg}"));
+        }
+    }
     std::fs::write(out, serde_json::to_vec(&ctx.report.to_json()).unwrap()).expect("MACHINERY: write shard report");
 }
 
